@@ -69,7 +69,9 @@ def wire_list(xs, sep=','):
 
 def wire_op(op):
     if op[0] == 'mutate':
-        return 'call/-/-/touch/-'          # not a library call: the model (which copies its arguments) sees nothing
+        # not a library call.  The model answers through Model.Metrics.afterCallerMutation (T1: was the object copied?);
+        # the labelnames tuple is built in validation.py and has no flag: a plain no-op
+        return 'mutate/' + op[1] if op[1] in ('info', 'states', 'buckets') else 'call/-/-/touch/-'
     if op[0] == 'clear':
         return 'clear'
     if op[0] == 'remove':
@@ -689,22 +691,16 @@ def gen_action(rng, spec, extended=False):
     return act, None
 
 
-# Objects the caller may go on mutating after handing them to the library.  `info` dicts and the `labelnames` list are
-# copied by the library.  The `states` list of Enum and the `buckets` list of a LABELLED Histogram are kept by reference
-# (self._states / self._kwargs) — a confirmed defect of the unchanged tree: their generation is switched on by
-# VERIF_C01_CTOR_ALIAS=1 (or once the signatures are listed in known_findings.json / the library copies them).
+# Objects the caller may go on mutating after handing them to the library: every one must have been COPIED on entry
+# (`info` dicts; the `labelnames`, Enum `states` and Histogram `buckets` sequences given to the constructors).
 def alias_targets(spec):
-    import os
     ts = ['labelnames']
     if spec['kind'] == 'info':
         ts += ['info', 'info', 'info']
-    on = os.environ.get('VERIF_C01_CTOR_ALIAS', '') == '1' or any(
-        k.get('property') == 'C01' and k.get('signature') in (ALIAS_SIG['states'], ALIAS_SIG['buckets'])
-        for k in lib.load_known().get('findings', []))
-    if on and spec['kind'] == 'enum':
-        ts += ['states', 'states']
-    if on and spec['kind'] == 'histogram':
-        ts += ['buckets', 'buckets']
+    if spec['kind'] == 'enum':
+        ts += ['states', 'states', 'states']
+    if spec['kind'] == 'histogram':
+        ts += ['buckets', 'buckets', 'buckets']
     return ts
 
 
@@ -728,7 +724,7 @@ def gen_history(rng, spec, length, extended=False):
     ops = []
     live = []
     n = len(spec['labelnames'])
-    p_mut = (0.12 if spec['kind'] == 'info' else 0.03) if extended else 0.0
+    p_mut = (0.12 if spec['kind'] == 'info' else 0.06 if spec['kind'] in ('enum', 'histogram') else 0.02) if extended else 0.0
     for _ in range(length):
         r = rng.random()
         if rng.random() < p_mut:
@@ -791,6 +787,10 @@ def alphabet(kind, extended=False):
     ops.append(['clear'])
     ops.append(call(A, [], 'touch', None))
     ops.append(call([['t', A]], [], *acts[0]))                              # both values as ONE tuple: wrong count
+    if kind == 'enum' and extended:
+        ops.append(['mutate', 'states', -1, 'append', None, 'zz'])          # the caller goes on using its states list
+    if kind == 'histogram' and extended:
+        ops.append(['mutate', 'buckets', -1, 'append', None, F(0.5)])       # ... its buckets list (now unsorted)
     if kind == 'info' and extended:
         ops.append(['mutate', 'info', -1, 'set', 'zz', '9'])                # the caller reuses the dict it passed last
         ops.append(['mutate', 'info', 0, 'clear', None, None])              # ... or the one it passed first
@@ -815,6 +815,10 @@ def alphabet0(kind, extended=False):
     ops.append(['call', [['s', 'a']], [], 'touch', None])
     ops.append(['remove', []])
     ops.append(['clear'])
+    if kind == 'enum' and extended:
+        ops.append(['mutate', 'states', -1, 'clear', None, None])
+    if kind == 'histogram' and extended:
+        ops.append(['mutate', 'buckets', -1, 'clear', None, None])
     if kind == 'info' and extended:
         ops.append(['mutate', 'info', -1, 'set', 'zz', '9'])
         ops.append(['mutate', 'info', 0, 'clear', None, None])
@@ -887,6 +891,17 @@ CORPUS = [
     ({'kind': 'counter', 'name': 'm', 'labelnames': ['l'], 'legacy': True},
      [['mutate', 'labelnames', -1, 'append', None, 'k'], ['call', [['s', 'x']], [], 'inc', F(1.0)], ['mutate', 'labelnames', -1, 'clear', None, None],
       ['call', [], [['l', ['s', 'x']]], 'inc', F(1.0)]]),
+    ({'kind': 'enum', 'name': 'm', 'labelnames': [], 'legacy': True, 'states': ['a', 'b']},
+     [['mutate', 'states', -1, 'append', None, 'c'], ['call', None, None, 'state', 'c'], ['mutate', 'states', -1, 'clear', None, None],
+      ['call', None, None, 'state', 'b']]),
+    ({'kind': 'enum', 'name': 'm', 'labelnames': ['l'], 'legacy': True, 'states': ['a', 'b']},
+     [['call', [['s', 'x']], [], 'state', 'b'], ['mutate', 'states', -1, 'clear', None, None], ['call', [['s', 'y']], [], 'touch', None],
+      ['mutate', 'states', -1, 'append', None, 'c'], ['call', [['s', 'z']], [], 'state', 'c']]),
+    ({'kind': 'histogram', 'name': 'm', 'labelnames': ['l'], 'legacy': True, 'buckets': [F(1.0), F(2.0)]},
+     [['call', [['s', 'x']], [], 'observe', F(1.5)], ['mutate', 'buckets', -1, 'append', None, F(0.5)], ['call', [['s', 'y']], [], 'observe', F(0.7)],
+      ['mutate', 'buckets', -1, 'pop', None, None], ['mutate', 'buckets', -1, 'append', None, F(3.0)], ['call', [['s', 'z']], [], 'observe', F(2.5)]]),
+    ({'kind': 'histogram', 'name': 'm', 'labelnames': [], 'legacy': True, 'buckets': [F(1.0), F(2.0)]},
+     [['mutate', 'buckets', -1, 'clear', None, None], ['call', None, None, 'observe', F(1.5)]]),
     # int observations that are no doubles, around bounds ints no longer fill: compared EXACTLY with the float bound
     ({'kind': 'histogram', 'name': 'm', 'labelnames': [], 'legacy': True, 'buckets': [F(2.0 ** 53), F(1e17), F(1e22)]},
      [['call', None, None, 'observe', ['i', 10 ** 17 + 3]], ['call', None, None, 'observe', ['i', 10 ** 17 - 3]],
@@ -993,7 +1008,7 @@ class Batch:
                 k = next((i for i in range(min(len(mseqs), len(real[2]))) if mseqs[i] != real[2][i]), 0)
                 ctx.diverge('step %d: sample order differs: implementation %r, model %r' % (k - 1, real[2][k][:6], mseqs[k][:6]),
                             {'spec': spec, 'ops': ops[:k]})
-            if spec_obs != model:
+            if spec_obs != [('ok' if o == 'Aliased' else o, x) for o, x in model]:     # `Aliased` is the model's own verdict, not the spec's
                 k = next((i for i in range(min(len(model), len(spec_obs))) if model[i] != spec_obs[i]), 0)
                 if not hyp_violated(spec):
                     ctx.diverge('theorem collect_refines_spec fails at run time: step %d model %s spec %s' % (
